@@ -3,6 +3,7 @@
 R1 handler coverage of open + pickle.load + unpack          R3 definite assignment of the three tables
 R4 the rebuild reaches the write                            R5 packaging lists the cache file
 R6 nothing the load can raise escapes the module's import-time code
+R7 the write replaces whatever is on disk (truncating mode on the cache path, or write-elsewhere + os.replace onto it)
 """
 import ast
 
@@ -17,8 +18,8 @@ EXPLANATION = (
     "module's import-time code: the try around open+pickle.load+unpack handles every class a missing, empty, "
     "truncated or garbage cache file can raise; on every path to a normal return the three global tables are "
     "assigned (an exception edge out of the unpack does not count as an assignment); every normal return is either "
-    "the early return after a complete load or passes through the pickle.dump that rewrites the cache; the cache "
-    "path is shipped by MANIFEST.in. Assumes a proper prefix of a pickle stream makes pickle.load raise (no STOP opcode)."
+    "the early return after a complete load or passes through the pickle.dump that rewrites the cache; the write opens the cache path in a truncating binary mode (or writes elsewhere and os.replace()s onto it), so "
+    "an existing damaged file is replaced; the cache path is shipped by MANIFEST.in. Assumes a proper prefix of a pickle stream makes pickle.load raise (no STOP opcode)."
 )
 TP = "dateparser.timezone_parser"
 REQUIRED = {
@@ -143,6 +144,66 @@ def run(ctx, chk):
         ok = isinstance(tg, ast.Tuple) and [ast.unparse(e) for e in tg.elts][1:] == globs
         chk.ob(rule, "the loader unpacks (hash, %s)" % ", ".join(globs), ok, "",
                key={"function": f.key, "construct": "unpack tuple"}, file=f.file, function=f.qual, line=unpack[0].lineno)
+
+    # R7 the write replaces whatever is on disk
+    rule = "C19.R7"
+    from ..core.effects import fold_str
+    p_cache = f.params()[0]
+    n_w = 0
+    for s in dumps:
+        call = [n for n in ast.walk(s) if isinstance(n, ast.Call) and ast.unparse(n.func) == "pickle.dump"][0]
+        fobj = ast.unparse(call.args[1]) if len(call.args) > 1 else {k.arg: ast.unparse(k.value) for k in call.keywords}.get("file")
+        withs = [w for w in iter_own_nodes(f.node) if isinstance(w, ast.With) and any(n is call for n in ast.walk(w))]
+        op = None
+        for w in withs:
+            for it in w.items:
+                if it.optional_vars is not None and ast.unparse(it.optional_vars) == fobj and isinstance(it.context_expr, ast.Call):
+                    op = it.context_expr
+        if op is None:
+            # file = open(...) bound by assignment
+            for n in iter_own_nodes(f.node):
+                if isinstance(n, ast.Assign) and ast.unparse(n.targets[0]) == fobj and isinstance(n.value, ast.Call):
+                    op = n.value
+        if op is None:
+            raise AnalysisError(rule, "cannot find where the file object %s written by pickle.dump is opened" % fobj)
+        n_w += 1
+        fn = ast.unparse(op.func)
+        kw = {k.arg: k.value for k in op.keywords}
+        if fn == "open":
+            path_e = op.args[0] if op.args else kw.get("file")
+            mode_e = op.args[1] if len(op.args) > 1 else kw.get("mode")
+        elif fn.endswith(".open") and not op.args[:1] or fn.endswith(".open"):
+            path_e = op.func.value
+            mode_e = op.args[0] if op.args else kw.get("mode")
+        else:
+            raise AnalysisError(rule, "unrecognised opener %s for the cache write" % fn)
+        mode = fold_str(mode_e, f, ix) if mode_e is not None else "r"
+        path_t = ast.unparse(path_e) if path_e is not None else "?"
+        direct = path_t == p_cache
+        replaced = [n for n in iter_own_nodes(f.node) if isinstance(n, ast.Call) and ast.unparse(n.func) in ("os.replace", "os.rename", "shutil.move")
+                    and len(n.args) == 2 and ast.unparse(n.args[0]) == path_t and ast.unparse(n.args[1]) == p_cache]
+        rep_stmt = None
+        if replaced:
+            rep_stmt = [st for st in iter_own_stmts(f.node.body) if any(n is replaced[0] for n in ast.walk(st)) and not isinstance(
+                st, (ast.With, ast.Try, ast.If, ast.For, ast.While))]
+        if direct:
+            ok = mode is not None and "w" in mode and "b" in mode
+            chk.ob(rule, "the rebuilt table is written with a mode that replaces an existing (damaged) file", ok,
+                   "open(%s, %r): %s" % (path_t, mode, "an existing damaged cache makes exclusive creation fail, so it is never repaired" if mode and "x" in mode
+                                         else "the damaged bytes are kept (append / in-place update)" if mode and ("a" in mode or "r" in mode) else "mode is not a constant"),
+                   key={"function": f.key, "construct": "write mode replaces the file"}, file=f.file, function=f.qual, line=op.lineno,
+                   text=ast.unparse(op)[:100])
+        else:
+            avoid2 = set()
+            for st in (rep_stmt or []) + rets:
+                avoid2 |= set(g.nodes_of(st))
+            pth = g.path_avoiding([g.entry.id], {g.exit.id}, avoid2) if rep_stmt else True
+            chk.ob(rule, "the table is written to %s and moved over the cache path on every rebuilding path" % path_t, bool(rep_stmt) and pth is None,
+                   "the rebuilt table is written somewhere else than the cache path and never moved onto it",
+                   key={"function": f.key, "construct": "write path is the cache path"}, file=f.file, function=f.qual, line=op.lineno,
+                   text=ast.unparse(op)[:100])
+    if dumps:       # a missing dump is R4's finding, not a vanished anchor
+        chk.floor(rule, n_w, 1, "cache writes")
 
     # R5 packaging
     rule = "C19.R5"
